@@ -35,6 +35,12 @@ struct KindDef {
     signed: bool,
     /// which region classes the kind's metadata protects
     protects: &'static [&'static str],
+    /// bytes of foreign data in front of the archive (a multiple of 512: the archive is embedded
+    /// behind a stub; every stored position is relative to the header found there)
+    prefix: usize,
+    /// judged on the intact image only (large archives: every file must read and verify; the byte
+    /// faults are enumerated on the small kinds)
+    intact_only: bool,
 }
 
 fn files_basic() -> Vec<FileSpec> {
@@ -60,6 +66,19 @@ fn files_basic() -> Vec<FileSpec> {
     ]
 }
 
+fn files_many(n: usize, seed: u32) -> Vec<FileSpec> {
+    (0..n)
+        .map(|i| FileSpec {
+            name: format!("world\\maps\\k{seed}\\tile_{}_{}.adt", i / 64, i % 64),
+            class: if i % 2 == 0 { ContentClass::Text } else { ContentClass::Random },
+            len: LenSpec { halves: 0, delta: 16 + (i % 23) as i16 },
+            seed: seed * 100_000 + i as u32,
+            method: if i % 3 == 0 { M_ZLIB } else { M_NONE },
+            enc: Enc::None,
+        })
+        .collect()
+}
+
 fn kinds() -> Vec<KindDef> {
     let base = |version, attrs, crcs, files| ArchiveSpec {
         version,
@@ -82,13 +101,18 @@ fn kinds() -> Vec<KindDef> {
         enc: Enc::None,
     });
     vec![
-        KindDef { name: "sector-crc", spec: base(1, Attrs::CrcsThenNone, true, files_basic()), signed: false, protects: &["file-data"] },
-        KindDef { name: "attr-crc32", spec: base(1, Attrs::Crc32, false, files_basic()), signed: false, protects: &["file-data", "sector-offset-table", "attributes-file"] },
-        KindDef { name: "attr-full-md5", spec: base(2, Attrs::Full, false, files_basic()), signed: false, protects: &["file-data", "sector-offset-table", "attributes-file"] },
-        KindDef { name: "v3-attr-crc32", spec: base(3, Attrs::Crc32, false, files_basic()), signed: false, protects: &["file-data", "sector-offset-table", "attributes-file"] },
-        KindDef { name: "v4-digests", spec: base(4, Attrs::None, false, files_basic()), signed: false, protects: &["header", "hash-table", "block-table", "het-table", "bet-table"] },
-        KindDef { name: "v4-digests-attr", spec: base(4, Attrs::Full, false, files_basic()), signed: false, protects: &["header", "hash-table", "block-table", "het-table", "bet-table", "file-data", "sector-offset-table", "attributes-file"] },
-        KindDef { name: "weak-signature", spec: base(1, Attrs::None, false, signed_files), signed: true, protects: &["header", "hash-table", "block-table", "file-data", "sector-offset-table", "listfile", "signature-file", "slack"] },
+        KindDef { name: "sector-crc", spec: base(1, Attrs::CrcsThenNone, true, files_basic()), signed: false, protects: &["file-data"], prefix: 0, intact_only: false },
+        KindDef { name: "attr-crc32", spec: base(1, Attrs::Crc32, false, files_basic()), signed: false, protects: &["file-data", "sector-offset-table", "attributes-file"], prefix: 0, intact_only: false },
+        KindDef { name: "attr-full-md5", spec: base(2, Attrs::Full, false, files_basic()), signed: false, protects: &["file-data", "sector-offset-table", "attributes-file"], prefix: 0, intact_only: false },
+        KindDef { name: "v3-attr-crc32", spec: base(3, Attrs::Crc32, false, files_basic()), signed: false, protects: &["file-data", "sector-offset-table", "attributes-file"], prefix: 0, intact_only: false },
+        KindDef { name: "v4-digests", spec: base(4, Attrs::None, false, files_basic()), signed: false, protects: &["header", "hash-table", "block-table", "het-table", "bet-table"], prefix: 0, intact_only: false },
+        KindDef { name: "v4-digests-attr", spec: base(4, Attrs::Full, false, files_basic()), signed: false, protects: &["header", "hash-table", "block-table", "het-table", "bet-table", "file-data", "sector-offset-table", "attributes-file"], prefix: 0, intact_only: false },
+        KindDef { name: "weak-signature", spec: base(1, Attrs::None, false, signed_files.clone()), signed: true, protects: &["header", "hash-table", "block-table", "file-data", "sector-offset-table", "listfile", "signature-file", "slack"], prefix: 0, intact_only: false },
+        // thousands of files: extended tables larger than the cipher's and the decoder's internal
+        // buffers, many names sharing an 8-bit HET hash inside one probe run
+        KindDef { name: "large-v3-attr-crc32", spec: base(3, Attrs::Crc32, false, files_many(1600, 3)), signed: false, protects: &[], prefix: 0, intact_only: true },
+        KindDef { name: "large-v4-attr-full", spec: base(4, Attrs::Full, false, files_many(2600, 4)), signed: false, protects: &[], prefix: 0, intact_only: true },
+        KindDef { name: "weak-signature-behind-prefix", spec: base(1, Attrs::None, false, signed_files.clone()), signed: true, protects: &["header", "hash-table", "block-table", "file-data", "sector-offset-table", "listfile", "signature-file", "slack"], prefix: 1024, intact_only: false },
     ]
 }
 
@@ -190,10 +214,26 @@ fn build(k: &KindDef, dir: &std::path::Path) -> Result<Built, String> {
     if k.spec.has_attributes() {
         add_file(&mut ar, "(attributes)", "attributes-file", None, 0)?;
     }
+    if k.prefix > 0 {
+        // embed the archive behind `prefix` foreign bytes; every region moves with it
+        let mut b = vec![0xA5u8; k.prefix];
+        b.extend_from_slice(&bytes);
+        bytes = b;
+        for r in regions.iter_mut() {
+            r.start += k.prefix;
+            r.end += k.prefix;
+        }
+        for c in crc_sectors.iter_mut() {
+            c.0 += k.prefix;
+            c.1 += k.prefix;
+        }
+        regions.push(Region { name: "foreign bytes in front of the archive".into(), class: "prefix", start: 0, end: k.prefix, file: None });
+    }
     if k.signed {
         let sigh = regions.iter().find(|r| r.class == "signature-header").ok_or("no signature region")?.clone();
         let sig = regions.iter().find(|r| r.class == "signature-file").ok_or("no signature region")?.clone();
-        let info = SignatureInfo::new_weak(0, hdr.archive_size as u64, sigh.start as u64, 72, vec![]);
+        // the signed range is the archive itself, [prefix, prefix + archive size), in file positions
+        let info = SignatureInfo::new_weak(k.prefix as u64, hdr.archive_size as u64, sigh.start as u64, 72, vec![]);
         let file = generate_weak_signature(Cursor::new(&bytes), &info).map_err(|e| format!("sign: {e}"))?;
         if file.len() != 72 || sig.end - sigh.start != 72 {
             return Err(format!("signature file {} bytes, region {}", file.len(), sig.end - sigh.start));
@@ -657,6 +697,10 @@ fn main() {
         check.count(&format!("{}:intact", k.name), true);
         if let Err(f) = judge(&cx, &b.bytes, None, 0) {
             check.fail(&f, json!({"kind": k.name, "offset": 0, "xor": [], "set": []}));
+            continue;
+        }
+        if k.intact_only {
+            check.count(&format!("{}:intact:{}-files", k.name, k.spec.files.len()), true);
             continue;
         }
         // enumerate faults
